@@ -361,10 +361,12 @@ def run(ctx: Ctx):
     from .C19 import r_whittaker_point
     r_whittaker_point(ctx, model, prop="C15", rule="R-pin")
     # interpolated reads (loading_at / pressure_at feed alpha-s, isosteric, Whittaker, IAST) see the converted numbers
-    from ..sites import conversions_drop_caches, no_memoisation
-    ctx.rule("R-fresh: every permanent conversion drops the interpolator caches unconditionally; no caching decorator in "
+    from ..sites import no_memoisation
+    from .C02 import cache_reset_for
+    ctx.rule("R-fresh: after every permanent conversion that changed the stored numbers both interpolator caches are gone (conversions "
+             "interpreted on isotherms holding cached interpolators; shared with C02 R-reset); no caching decorator in "
              "pygaps.characterisation (cached constants/results would survive a change of units or parameters)")
-    conversions_drop_caches(ctx, model, "C15", "R-fresh")
+    cache_reset_for(ctx, "C15", "R-fresh")
     no_memoisation(ctx, model, "C15", "R-fresh", ("pygaps.characterisation.",),
                    "the cached value is keyed by object identity / name and survives a conversion or refit of the same object")
     from .C03 import r_order
